@@ -11,7 +11,9 @@ import Tickit.Driver.Common
   the implementation's bytes; a ghost record keeps the values the program last set successfully and the
   pen it asked for.  While the terminal is running the VT's modes and rendition must equal the ghost
   (`shadow_inv`, `resume_reestablishes`, `pen_survives_pause`); after pause, teardown and destruction
-  they must equal the VT's initial ones (`teardown_restores`); every read-back must equal the ghost
+  they must equal the VT's initial ones (`teardown_restores`) - the mode state at hand-over is a parameter of
+  the history (`new … vis=0`: the cursor is hidden; the replies fed must be those of such a terminal, and the
+  program then leaves cursor visibility alone: `handoverOk`); every read-back must equal the ghost
   (`getctl_last_set`).  The contract (documented API use) is tracked explicitly: between pause and
   resume nothing but resume/teardown/unref, after teardown nothing but unref, mouse modes 0…3, text
   payloads without control bytes; the RGB8 capability does not change while the pen asked for holds an RGB8
